@@ -241,6 +241,87 @@ def rw_drop_cfg_debug(text: str) -> str:
     text = text[:start] + text[end:]
 
 
+def _cfg_eval(toks, features):
+  """evaluate a cfg predicate given as a list of significant tokens; returns True / False, or None when it mentions anything but
+  feature = "..", not / any / all"""
+  pos = [0]
+  def peek(): return toks[pos[0]].text if pos[0] < len(toks) else None
+  def eat(x=None):
+    t = toks[pos[0]]; pos[0] += 1
+    if x is not None and t.text != x: raise ScanError('cfg: expected %s, got %s' % (x, t.text))
+    return t
+  def pred():
+    t = eat()
+    if t.text == 'feature':
+      eat('='); v = eat()
+      if v.kind != 'str': raise ScanError('cfg: feature value')
+      return v.text.strip('"') in features
+    if t.text in ('not', 'any', 'all'):
+      eat('('); vals = []
+      while peek() != ')':
+        vals.append(pred())
+        if peek() == ',': eat(',')
+      eat(')')
+      if any(v is None for v in vals): return None
+      if t.text == 'not': return not vals[0]
+      return any(vals) if t.text == 'any' else all(vals)
+    # debug_assertions, test, target_*: not decided here
+    if peek() == '=': eat('='); eat()
+    return None
+  v = pred()
+  if pos[0] != len(toks): raise ScanError('cfg: trailing tokens')
+  return v
+
+
+def rw_eval_cfg(text: str, features: List[str]) -> str:
+  """R3c: `#[cfg(PRED)]` on a statement, block or expression statement, where PRED only mentions cargo features: evaluated under the stated
+  feature set (the default build: none of the gc_log_* / gc_stress features). A false item is dropped with its attribute, a true item keeps its
+  text and loses the attribute. Attributes whose predicate mentions anything else (debug_assertions, test) are left alone."""
+  feats = set(features)
+  scan_from = 0
+  while True:
+    toks = rsitems.lex(text)
+    s = rsitems.sig(toks)
+    hit = None
+    for n in range(len(s) - 3):
+      if toks[s[n]].start < scan_from: continue
+      if toks[s[n]].text == '#' and toks[s[n + 1]].text == '[' and toks[s[n + 2]].text == 'cfg' and toks[s[n + 3]].text == '(':
+        hit = n; break
+    if hit is None: return text
+    kopen = s[hit + 3]
+    kclose = rsitems.match_close(toks, kopen)
+    inner = [toks[k] for k in s if kopen < k < kclose]
+    val = _cfg_eval(inner, feats)
+    # the closing ']' of the attribute
+    kend = next(k for k in s if k > kclose)
+    if toks[kend].text != ']': raise Undecided('R3c: malformed cfg attribute')
+    attr_start, attr_end = toks[s[hit]].start, toks[kend].end
+    if val is None:
+      scan_from = attr_end; continue
+    if val:
+      text = text[:attr_start] + text[attr_end:]
+      scan_from = attr_start; continue
+    # false: drop the attribute and the item it is attached to
+    after = [k for k in s if k > kend]
+    if not after: raise Undecided('R3c: cfg attribute without an item')
+    first = after[0]
+    if toks[first].text == '{':
+      end = toks[rsitems.match_close(toks, first)].end
+    else:
+      depth, end = 0, None
+      for k in after:
+        t = toks[k]
+        if t.kind == 'p' and t.text in '([{': depth += 1
+        elif t.kind == 'p' and t.text in ')]}':
+          depth -= 1
+          if depth < 0: end = t.start; break           # a tail expression: runs to the end of the enclosing block
+          if depth == 0 and t.text == '}' and toks[first].text in ('if', 'match', 'while', 'for', 'loop', 'unsafe'): end = t.end; break
+        elif t.kind == 'p' and t.text == ';' and depth == 0: end = t.end; break
+      if end is None: raise Undecided('R3c: no end of the item after a cfg attribute')
+    text = text[:attr_start] + text[end:]
+    scan_from = attr_start
+
+
 def rw_range_map_collect(text: str) -> str:
   """R13m: `let NAME = (0..N).map(|_| { BODY }).collect::<Vec<T>>();` -> the loop the iterator chain runs:
        let verif_n = N; let mut verif_out: Vec<T> = Vec::new(); let mut verif_k = 0;
@@ -272,7 +353,7 @@ def rw_range_map_collect(text: str) -> str:
   return text[:m.start()] + new + after[mc.end():]
 
 
-def rw_thread_heap(text: str, methods: List[str]) -> str:
+def rw_thread_heap(text: str, methods: List[str], name: str = 'verif_heap', ty: str = 'ListHeap') -> str:
   """R16: the list heap is reached through raw pointers; in the unit it is explicit ghost-bearing state threaded through every call:
        fn f(&self / &mut self, ARGS)          -> fn f(&self / &mut self, verif_heap: &mut ListHeap, ARGS)
        RECV.m(ARGS) for m in `methods`        -> RECV.m(verif_heap, ARGS)          (RECV = any expression; the call text is otherwise unchanged)
@@ -282,15 +363,15 @@ def rw_thread_heap(text: str, methods: List[str]) -> str:
   m = re.match(r'^(\s*&\s*(?:mut\s+)?self\s*)(,?)(.*)$', params, flags=re.S)
   if not m:
     m2 = re.match(r'^(\s*)(.*)$', params, flags=re.S)
-    new_params = 'verif_heap: &mut ListHeap' + (', ' + params if params.strip() else '')
+    new_params = '%s: &mut %s' % (name, ty) + (', ' + params if params.strip() else '')
   else:
     rest = m.group(3)
-    new_params = m.group(1) + ', verif_heap: &mut ListHeap' + (',' + rest if rest.strip() else '')
+    new_params = m.group(1) + ', %s: &mut %s' % (name, ty) + (',' + rest if rest.strip() else '')
   head = text[:a.params_open + 1] + new_params + text[a.params_close:a.body_open + 1]
   body = text[a.body_open + 1:a.body_close]
   alt = '|'.join(re.escape(x) for x in sorted(methods, key=len, reverse=True))
   def sub(mm):
-    return '.%s(verif_heap%s' % (mm.group(1), '' if mm.group(2) == ')' else ', ') + ('' if mm.group(2) != ')' else ')')
+    return '.%s(%s%s' % (mm.group(1), name, '' if mm.group(2) == ')' else ', ') + ('' if mm.group(2) != ')' else ')')
   body = re.sub(r'\.\s*(%s)\s*\(\s*(\)|(?=[^\s)]))' % alt, sub, body)
   return head + body + text[a.body_close:]
 
@@ -379,10 +460,10 @@ def rw_next_if_pred(text: str, fns: List[str], vars: List[str] = ()) -> str:
       if t.start >= m.start() and t.kind == 'p' and t.text == '(': ko = idx; break
     kc = rsitems.match_close(toks, ko)
     body = [t for t in toks[ko + 1:kc] if t.start >= m.end()]
-    sig = [t for t in body if t.kind not in ('ws', 'comment')]
+    sig = [t for t in body if t.kind not in ('ws', 'lc', 'bc')]
     out = []
     for n, t in enumerate(body):
-      if t.kind in ('ws', 'comment'): out.append(' '); continue
+      if t.kind in ('ws', 'lc', 'bc'): out.append(' '); continue
       k = sig.index(t)
       nxt = sig[k + 1] if k + 1 < len(sig) else None
       prv = sig[k - 1] if k > 0 else None
@@ -396,6 +477,29 @@ def rw_next_if_pred(text: str, fns: List[str], vars: List[str] = ()) -> str:
       out.append(t.text)
     pred = re.sub(r'\s+', ' ', ''.join(out)).strip()
     text = text[:m.start()] + 'self.verif_next_if(Ghost(|c: char| %s))' % pred + text[toks[kc].end:]
+
+
+def rw_for_each_index(text: str) -> str:
+  """R13f: `RECV.iter().for_each(|X| { BODY });` (RECV a field path) -> `let mut verif_fK: usize = 0; while verif_fK < RECV.len() { let X = &RECV[verif_fK]; BODY verif_fK += 1; }`
+  (iter() over a Vec visits index 0, 1, .. in order; the closure body is copied unchanged; refused when it contains return / break / continue)"""
+  k = 0
+  while True:
+    m = re.search(r'((?:self|this)(?:\s*\.\s*\w+)+)\s*\.\s*iter\(\)\s*\.\s*for_each\(\s*\|\s*(\w+)\s*\|\s*\{', text)
+    if not m: return text
+    toks = rsitems.lex(text)
+    kb = next(i for i, t in enumerate(toks) if t.end == m.end() and t.text == '{')
+    kc = rsitems.match_close(toks, kb)
+    body = text[toks[kb].end:toks[kc].start]
+    if any(t.kind == 'id' and t.text in ('return', 'break', 'continue') for t in rsitems.lex(body)): raise Undecided('R13f: closure body leaves the loop')
+    rest = text[toks[kc].end:]
+    mm = re.match(r'\s*\)\s*;', rest)
+    if not mm: raise Undecided('R13f: for_each is not a whole statement')
+    recv = re.sub(r'\s+', '', m.group(1))
+    b = body.rstrip()
+    if b and not b.endswith(';') and not b.endswith('}'): b += ';'
+    new = 'let mut verif_f%d: usize = 0;\n      while verif_f%d < %s.len() {\n        let %s = &%s[verif_f%d];%s\n        verif_f%d += 1;\n      }' % (k, k, recv, m.group(2), recv, k, b, k)
+    text = text[:m.start()] + new + rest[mm.end():]
+    k += 1
 
 
 def rw_mut_self(text: str) -> str:
@@ -938,11 +1042,13 @@ def build_unit(name: str, variant: Optional[str] = None, canary: bool = False) -
         elif rule == 'R4g': new = rw_option_tail(new)
         elif rule == 'R15': new = rw_trace_log(new)
         elif rule == 'R13r': new = rw_for_range(new)
+        elif rule == 'R13f': new = rw_for_each_index(new)
         elif rule == 'R17': new = rw_inline_scope(new)
         elif rule == 'R4n': new = rw_next_if_pred(new, args.get('fns', []), args.get('vars', []))
-        elif rule == 'R16': new = rw_thread_heap(new, args['methods'])
+        elif rule == 'R16': new = rw_thread_heap(new, args['methods'], args.get('name', 'verif_heap'), args.get('ty', 'ListHeap'))
         elif rule == 'R13m': new = rw_range_map_collect(new)
         elif rule == 'R3d': new = rw_drop_cfg_debug(new)
+        elif rule == 'R3c': new = rw_eval_cfg(new, args.get('features', []))
         elif rule == 'R2': new = rw_slice_match(new)
         elif rule == 'R10': new = rw_project_struct(new, args['keep'])
         elif rule == 'R14': new = rw_named_ops(new)
